@@ -119,7 +119,7 @@ def hyper_sample(rng, kind, n_agents, mode):
     if kind == 'CS':
         return {'alpha': pick(0.01, 2.0), 'beta': pick(0.3, 2.0), 'p': pick(0.0, 1.0)}
     if kind == 'FA':
-        return {'alpha': pick(0.0, 1.0), 'beta': pick(0.0, 1.0), 'gamma': pick(0.0, 2.0)}
+        return {'alpha': rng.choice([0.0, 1e-12, 1.0]) if e else pick(0.0, 1.0), 'beta': pick(0.0, 1.0), 'gamma': pick(0.0, 2.0)}
     if kind == 'FPA':
         return {'beta': pick(0.3, 2.0), 'eta': pick(0.0, 1.0), 'p': pick(0.0, 1.0)}
     if kind == 'GSA':
@@ -133,12 +133,12 @@ def hyper_sample(rng, kind, n_agents, mode):
         c, d = sorted([pick(0.05, 5.0), pick(0.05, 5.0)])
         return {'HMCR': pick(0.0, 1.0), 'PAR_min': a, 'PAR_max': b, 'bw_min': c, 'bw_max': d}
     if kind == 'SA':
-        return {'T': pick(0.01, 100.0), 'beta': pick(0.01, 1.0)}
+        return {'T': rng.choice([1e-12, 1e-300, 100.0]) if e else rng.choice([round(u(0.01, 100.0), 3), 1e-12, 5e-11]), 'beta': pick(0.01, 1.0)}
     if kind == 'SCA':
         a, b = sorted([pick(0.0, 2.0), pick(0.0, 2.0)])
         return {'r_min': a, 'r_max': b, 'a': pick(0.0, 3.0)}
     if kind == 'WCA':
-        return {'nsr': rng.randint(1, max(1, n_agents - 1)), 'd_max': pick(0.0, 1.0)}
+        return {'nsr': rng.randint(1, max(1, n_agents)), 'd_max': rng.choice([0.0, 1e-12, 1.0]) if e else pick(0.0, 1.0)}
     if kind == 'GP':
         def p():
             return rng.choice([0.0, 1.0]) if e else rng.choice([0.0, 0.1, 0.25, 0.5, 1.0])
@@ -160,8 +160,10 @@ def gen_configs(tier, seed):
         spaces = ['tree'] if kind == 'GP' else ['search', 'hyper']
         for r in range(reps):
             sp = spaces[r % len(spaces)]
-            nmin = 3 if kind == 'WCA' else 1
+            nmin = 2 if kind == 'WCA' else 1   # WCA needs n_agents >= nsr (default nsr = 2)
             n_agents = max(nmin, rng.choice([nmin, 2, 3, 5, 8]))
+            if kind == 'GP':
+                n_agents = rng.choice([2, 5, 10, 12, 20])
             nv = rng.choice([1, 2, 3])
             nd = rng.choice([1, 2, 3, 4]) if sp == 'hyper' else 1
             box = rng.choice(BOXES)
@@ -175,7 +177,7 @@ def gen_configs(tier, seed):
                 obj = 'positive'                                     # K3
             hook = 'observer' if r % 4 else rng.choice(['corner', 'swap'])
             cfg = dict(kind=kind, space=sp, n_agents=n_agents, n_vars=nv, n_dims=nd,
-                       n_iter=rng.choice([1, 2, 3, 6]), box=box, lb=lb, ub=ub, objective=obj,
+                       n_iter=rng.choice([2, 4, 8]) if kind == 'GP' else rng.choice([1, 2, 3, 6]), box=box, lb=lb, ub=ub, objective=obj,
                        rettype=rng.choice(['py', 'np']),
                        hyper=hyper_sample(rng, kind, n_agents, rng.choice(['default', 'random', 'random', 'ends'])),
                        adv=rng.choice([0.0, 0.0, 0.15, 0.4]), hook=hook,
